@@ -209,6 +209,44 @@ fn part_enc(o: &Opts, out: &mut Out) {
         if k % 4 == 0 { encoded_event(out, &format!("{src}-nometa"), &Val::Transaction(strip_metadata(&t))); }
         if k % 5 == 0 { for p in parts_of(&t) { if !matches!(&p, Val::Input(i) if degenerate_input(i)) { encoded_event(out, "part", &p); } } }
     }
+    // LONG vectors of structured elements (hundreds to thousands of witnesses / storage slots / outputs / inputs / proof
+    // nodes): the element count on the wire is the count of elements decoded, whatever a decoder pre-allocates
+    {
+        let mut rng = o.rng(13);
+        out.ev(json!({"ev": "Seg", "part": "enc"}));
+        let pol = PoliciesV::new().with_max_fee(1);
+        let nw = if o.thorough() { vec![2730usize, 2731, 4100, 8200] } else { vec![2800] };
+        for n in nw {
+            let wits: Vec<Witness> = (0..n).map(|i| if i % 97 == 0 { vec![i as u8; i % 9].into() } else { Vec::new().into() }).collect();
+            let tx: Transaction = Transaction::script(1, vec![], vec![], pol, vec![], vec![], wits).into();
+            encoded_event(out, "long-witnesses", &Val::Transaction(tx));
+        }
+        let ns = if o.thorough() { vec![1024usize, 1025, 2100] } else { vec![1100] };
+        for n in ns {
+            let mut slots: Vec<fuel_tx::StorageSlot> = (0..n).map(|_| rng.gen()).collect();
+            slots.sort();
+            let tx: Transaction = Transaction::create(0, pol, rng.gen(), slots, vec![], vec![], vec![vec![1u8, 2, 3].into()]).into();
+            encoded_event(out, "long-slots", &Val::Transaction(tx));
+        }
+        let no = if o.thorough() { vec![819usize, 820, 1700] } else { vec![900] };
+        for n in no {
+            let outs: Vec<Output> = (0..n).map(|_| gen_output(&mut rng)).collect();
+            let tx: Transaction = Transaction::script(2, vec![], vec![], pol, vec![], outs, vec![]).into();
+            encoded_event(out, "long-outputs", &Val::Transaction(tx));
+        }
+        let ni = if o.thorough() { vec![300usize, 700] } else { vec![400] };
+        for n in ni {
+            let ins: Vec<Input> = (0..n).map(|_| Input::contract(rng.gen(), rng.gen(), rng.gen(), rng.gen(), rng.gen())).collect();
+            let tx: Transaction = Transaction::script(3, vec![], vec![], pol, ins, vec![], vec![]).into();
+            encoded_event(out, "long-inputs", &Val::Transaction(tx));
+        }
+        let np = if o.thorough() { vec![2048usize, 2049, 4000] } else { vec![2100] };
+        for n in np {
+            let body = fuel_tx::UploadBody { root: rng.gen(), witness_index: 0, subsection_index: 1, subsections_number: 2, proof_set: (0..n).map(|_| rng.gen()).collect() };
+            let tx: Transaction = Transaction::upload(body, pol, vec![], vec![], vec![vec![7u8; 5].into()]).into();
+            encoded_event(out, "long-proof", &Val::Transaction(tx));
+        }
+    }
     let mut rng = o.rng(12);
     let m = if o.thorough() { 12000 } else { 500 };
     for k in 0..m {
